@@ -17,7 +17,8 @@ MANIFEST = dict(
          "option no loop label's guard depends on running jobs, the loop is never in a blocking position and a due entry reaches ExecStart "
          "within three labels whatever is running. The switch (guards, order, actions), the pool loop bounds and wg.Add placement are "
          "regenerated from scheduler.go on every run. On the real scheduler n jobs meeting at a barrier of size n must pass it, n+1 must "
-         "never all be inside, the in-flight maximum (sampled at every Execute entry/exit) must respect the bound under mixed workloads, and "
+         "never all be inside, after p = 1..n executions that panicked n jobs must still meet at a barrier of n (compared with the model run "
+         "panic_rounds ++ fill_pool n), the in-flight maximum (sampled at every Execute entry/exit) must respect the bound under mixed workloads, and "
          "in unbounded mode a never-returning job delays neither a sibling nor its own next fire times. True parallelism is observed, not proved.",
     design_ref="6 C12")
 
@@ -41,6 +42,12 @@ def oracle(r):
         if not r["barrier_reached"]:
             why.append("pool of %d: after jobs whose own error was context.DeadlineExceeded / wrapped context.Canceled, %d jobs due at once no longer ran "
                        "in parallel (workers were lost); %d of %d executions" % (r["limit"], r["barrier"], r["execs"], r["jobs"]))
+    if r["test"] == "panic_then_barrier":
+        if not r["barrier_reached"]:
+            why.append("pool of %d: after %d execution(s) that panicked, %d jobs due at once no longer ran in parallel within 5 s (a panic cost the pool "
+                       "a worker); %d of %d executions" % (r["limit"], r["panics"], r["barrier"], r["execs"], r["jobs"]))
+        elif r["execs"] < r["jobs"]:
+            why.append("pool of %d: only %d of %d due jobs were executed after %d panics" % (r["limit"], r["execs"], r["jobs"], r["panics"]))
     if r["test"] == "retrying_independent":
         if r["sibling_max_gap_ms"] > 450:
             why.append("unbounded mode: while a failing job was in its retry sequence a sibling ticker (every 10 ms) was not dispatched for %d ms" % r["sibling_max_gap_ms"])
@@ -62,13 +69,17 @@ Definition reach (c : dcfg) (n : nat) : nat :=
   | Some DSendDispatch => match drun c (dinit c) (fill_pool n) with Some s => d_inflight s | None => 0%%nat end
   | Some DInline => match drun c (dinit c) [MakeDue n; DFetch; DDispatch] with Some s => d_inflight s | None => 0%%nat end
   | _ => n end.
-Definition cases : list (nat * (dcfg * nat * nat * nat)) := [
+(* ... after p executions that panicked, one after the other, in workers 0, 1, .. (mod n) *)
+Definition reach_after (c : dcfg) (p n : nat) : nat :=
+  match drun c (dinit c) (panic_rounds (map (fun i => Nat.modulo i n) (seq 0 p)) ++ fill_pool n) with Some s => d_inflight s | None => 0%%nat end.
+Definition cases : list (nat * (dcfg * nat * nat * nat * nat)) := [
 %s
 ].
-(* (index, (config, declared bound, jobs at the barrier, observed maximum)) *)
+(* (index, (config, declared bound, jobs at the barrier, observed maximum, panics before the barrier)) *)
 Definition MISMATCH := Eval vm_compute in
-  flat_map (fun x => let '(id, (c, b, n, obs)) := x in
-    if Nat.eqb (bound c) b && (if Nat.eqb b 0 then true else Nat.leb obs (bound c)) && (if Nat.eqb n 0 then true else Nat.eqb (reach c n) obs)
+  flat_map (fun x => let '(id, (c, b, n, obs, p)) := x in
+    if Nat.eqb (bound c) b && (if Nat.eqb b 0 then true else Nat.leb obs (bound c)) &&
+       (if Nat.eqb n 0 then true else Nat.eqb (if Nat.eqb p 0 then reach c n else reach_after c p n) obs)
     then [] else [id]) cases.
 Print MISMATCH.
 """
@@ -79,20 +90,33 @@ def model_mismatches(rows):
     for i, r in enumerate(rows):
         blocking = "true" if r["mode"].startswith("blocking") else "false"
         limit = r["limit"] if r["mode"] in ("pool", "blocking+limit") else 0
-        n = r["barrier"] if (r["test"] == "barrier_n" and r["barrier_reached"]) else 0
-        items.append("(%d%%nat, (mkd %s %d, %d%%nat, %d%%nat, %d%%nat))" % (i, blocking, limit, r["bound"], n, r["max_inflight"]))
+        n = r["barrier"] if (r["test"] in ("barrier_n", "panic_then_barrier") and r["barrier_reached"]) else 0
+        items.append("(%d%%nat, (mkd %s %d, %d%%nat, %d%%nat, %d%%nat, %d%%nat))" % (i, blocking, limit, r["bound"], n, r["max_inflight"], r.get("panics", 0)))
     ids, out = lc.coq_eval_list("c12_cases", MODEL_V % ";\n".join(items))
     if ids is None:
         return None, out
-    return [{"case": {k: rows[i][k] for k in ("mode", "limit", "test", "jobs", "barrier", "seed")}, "observed_max_inflight": rows[i]["max_inflight"],
+    return [{"case": {k: rows[i].get(k) for k in ("mode", "limit", "test", "jobs", "barrier", "seed", "panics")}, "observed_max_inflight": rows[i]["max_inflight"],
              "what": "the bound or the reachable parallelism of the Coq dispatch model differs from what the real scheduler showed"} for i in ids], out
+
+
+CRASHES = []
 
 
 def run_modes(binp, seed, tier):
     rc, rows, out = lc.run_json([binp, "modes", str(seed), tier], timeout=900)
     if rc != 0:
+        if "panic:" in out or "fatal error:" in out:
+            # the scheduler took the harness process down (a job panic that was not recovered): a finding
+            m = out[out.find("panic:") if "panic:" in out else out.find("fatal error:"):]
+            CRASHES.append({"case": {"kind": "modes-crash", "seed": seed, "tier": tier},
+                            "why": ["the process running the execution-mode scenarios died: " + m[:700]],
+                            "how": "looph modes %d %s" % (seed, tier)})
+            return [r for r in rows if r.get("kind") == "modes"]
         raise RuntimeError("looph modes failed: " + out[-2000:])
     return [r for r in rows if r.get("kind") == "modes"]
+
+
+KEY = ("mode", "limit", "test", "jobs", "restart", "panics")
 
 
 def run(ctx):
@@ -103,15 +127,16 @@ def run(ctx):
         for k in range(1, 4):
             rows += run_modes(binp, ctx.seed + k, "thorough")
     failures, mismatches = [], []
+    failures += CRASHES[:1]
     for r in [x for x in rows if oracle(x)][:4]:
         if len(failures) >= 2:
             break
         why = oracle(r)
         if why:
             # a timing-dependent miss (barrier not reached under load) must show again
-            again = [x for x in run_modes(binp, r["seed"] + 1, ctx.tier) if (x["mode"], x["limit"], x["test"], x["jobs"], x.get("restart")) == (r["mode"], r["limit"], r["test"], r["jobs"], r.get("restart"))]
+            again = [x for x in run_modes(binp, r["seed"] + 1, ctx.tier) if all(x.get(k) == r.get(k) for k in KEY)]
             if any(oracle(x) for x in again) or any("in flight" in w or "inside Execute" in w for w in why):
-                failures.append({"case": {k: r.get(k) for k in ("mode", "limit", "test", "jobs", "barrier", "bound", "seed", "restart")}, "why": why,
+                failures.append({"case": {k: r.get(k) for k in ("mode", "limit", "test", "jobs", "barrier", "bound", "seed", "restart", "panics")}, "why": why,
                                  "how": "looph modes: instrumented jobs with an in-flight counter and a barrier"})
     stale_rows, sf = lc.stale_worker_failures(binp, ctx.seed, 12 if ctx.tier == "quick" else 100, bound_only=True)
     failures += sf
@@ -128,7 +153,7 @@ def run(ctx):
             for r in run_modes(binp, ctx.seed + 50 * k, "thorough"):
                 why = oracle(r)
                 if why:
-                    found.append({"case": {k2: r[k2] for k2 in ("mode", "limit", "test", "jobs", "barrier", "bound", "seed")}, "why": why})
+                    found.append({"case": {k2: r.get(k2) for k2 in ("mode", "limit", "test", "jobs", "barrier", "bound", "seed", "panics")}, "why": why})
             if found:
                 break
         return found[:3]
@@ -139,6 +164,7 @@ def run(ctx):
         "evaluations": len(rows) + len(stale_rows), "restart_with_old_worker_busy_trials": len(stale_rows), "executions_observed": sum(r["execs"] for r in rows),
         "distinct_nontrivial": len({(r["mode"], r["limit"], r["test"], r["jobs"]) for r in rows if r["max_inflight"] >= 1}),
         "rule": "pool limits 1,2,3,8 (64 in the thorough tier) x {n jobs at a barrier of n, n+1 and 2n+1 jobs at a barrier of n+1, mixed workload}, "
+                "n jobs at a barrier of n after p <= n panicking executions, "
                 "blocking (with and without WorkerLimit), unbounded (24 at a barrier, mixed, never-returning job); non-trivial = at least one execution",
         "samples": rows[:3], "exhaustive": False,
         "model_mismatches": len(mismatches), "oracle_failures": len(failures),
@@ -155,6 +181,14 @@ def replay(ctx, path):
     obj = json.load(open(path))
     c = obj.get("case", {})
     binp = lc.looph()
+    if c.get("kind") == "modes-crash":
+        del CRASHES[:]
+        run_modes(binp, c.get("seed", ctx.seed), c.get("tier", "quick"))
+        if CRASHES:
+            vlib.report_violation(ctx, CRASHES[0])
+            return 1
+        print("the scenarios ran through without a crash")
+        return 0
     if c.get("kind") == "staleworker":
         rows, sf = lc.stale_worker_failures(binp, c.get("seed", ctx.seed), c.get("n", 12), bound_only=True)
         print(json.dumps({"trials": len(rows), "failing": len([r for r in rows if lc.stale_worker_oracle(r, True)])}))
@@ -163,7 +197,7 @@ def replay(ctx, path):
             return 1
         return 0
     rows = [r for r in run_modes(binp, c.get("seed", ctx.seed), "thorough" if c.get("limit") == 64 else "quick")
-            if all(r.get(k) == c.get(k) for k in ("mode", "limit", "test", "jobs"))]
+            if all(r.get(k) == c.get(k) for k in ("mode", "limit", "test", "jobs")) and r.get("panics", 0) == (c.get("panics") or 0)]
     for r in rows:
         why = oracle(r)
         print(json.dumps({"case": c, "why": why, "max_inflight": r["max_inflight"]}))
